@@ -286,3 +286,54 @@ func TestRegression_RangeStartsInEarlierSegment(t *testing.T) {
 		e.close()
 	}
 }
+
+// tsdb/memdb/time_series_index.go Load: the container of the queried high key is looked up in the
+// shard's in-memory series map of the metric with `GetContainerIndex(highKey) == -1` as the only
+// "not found" test; roaring answers -(insertion point + 1), i.e. -2, -3, ... when a lower container
+// exists. A metric whose series ids cross 65536: after a restart only series a (id 0) reports again,
+// the statement also matches series b (id 65536, in the file): "index out of range [-2]".
+func TestRegression_MemdbLoadOfContainerAboveTheOnesInMemory(t *testing.T) {
+	known(t, sigMemLoadContainer, "memory database asked for a series-id container above the ones its index holds: query fails with index out of range [-2]")
+	r := newRegEnv(t, fieldDef{"s", tSum})
+	r.metrics[0].IDPlan = []uint32{0, 65536}
+	r.w(0, 0, v("s", 1))
+	r.w(1, 0, v("s", 2))
+	want := fmt.Sprintf("[] s: %d=3\n", regBase)
+	if got := r.q(r.sel("s", "")); got != want {
+		t.Fatalf("memory: got:\n%swant:\n%s", got, want)
+	}
+	if err := r.flushDB(); err != nil {
+		t.Fatal(err)
+	}
+	if err := r.reopen(); err != nil {
+		t.Fatal(err)
+	}
+	if got := r.q(r.sel("s", "")); got != want {
+		t.Fatalf("after restart: got:\n%swant:\n%s", got, want)
+	}
+	r.w(0, 10_000, v("s", 4))
+	want = fmt.Sprintf("[] s: %d=3 %d=4\n", regBase, regBase+10_000)
+	if got := r.q(r.sel("s", "")); got != want {
+		t.Fatalf("after restart and a write to series a: got:\n%swant:\n%s", got, want)
+	}
+}
+
+// tsdb/memdb/time_series_index.go Load: the data load tasks of the series-id containers of a statement
+// run concurrently and read the write pages through the shared *fieldEntry of the filter result set
+// (fm.Reset(page)): series b (id 65536) shows the value of series a (id 0). Schedule dependent: the
+// statement is repeated.
+func TestRegression_MemdbParallelContainerLoadsSharePageReader(t *testing.T) {
+	known(t, sigMemParallelLoad, "memory database read for >= 2 series-id containers in parallel: a series gets the values of another one")
+	r := newRegEnv(t, fieldDef{"s", tSum})
+	r.metrics[0].IDPlan = []uint32{0, 65536}
+	r.w(0, 0, v("s", 1))
+	r.w(1, 0, v("s", 2))
+	r.w(0, hourMs, v("s", 4))
+	r.w(1, hourMs, v("s", 8))
+	want := fmt.Sprintf("[host=a] s: %d=1 %d=4\n[host=b] s: %d=2 %d=8\n", regBase, regBase+hourMs, regBase, regBase+hourMs)
+	for i := 0; i < 600; i++ {
+		if got := r.q(r.sel("s", "") + " group by host"); got != want {
+			t.Fatalf("run %d: got:\n%swant:\n%s", i, got, want)
+		}
+	}
+}
